@@ -1015,6 +1015,25 @@ def frontOKSb (st : Static) (nodes : List AstNode) (d0 : Defs) : Bool :=
               | .error _ => false)))
     | _ => true
 
+/-- references of instructions and data elements are pairwise distinct; the symbol slot of every
+    symbol node exists (or lies beyond the table), and no label has a sized value yet -/
+def frontUniqb (nodes : List AstNode) (d0 : Defs) : Bool :=
+  let pos := positions nodes
+  let symOKb (r : Nat) : Bool := decide (d0.symbols.length ≤ r) || (d0.symbols.getD r none).isSome
+  pos.all fun p => match p.2 with
+    | .instr _ (some ref) =>
+      pos.all fun q => match q.2 with
+        | .instr _ (some ref') => ref' != ref || q.1 == p.1
+        | _ => true
+    | .data _ es refs =>
+      (List.range es.length).all fun k =>
+        pos.all fun q => match q.2 with
+          | .data _ es' refs' => (List.range es'.length).all fun k' => refs'.getD k' 0 != refs.getD k 0 || (q.1 == p.1 && k' == k)
+          | _ => true
+    | .symbol _ _ .label _ (some r) => symOKb r && (match (d0.sym r).value with | .int x => x.size.isNone | _ => true)
+    | .symbol _ _ (.constant _) _ (some r) => symOKb r
+    | _ => true
+
 /-! ## the two settings of the static-value optimisation, side by side -/
 
 /-- clear the "resolved in the first pass" marks of instructions and data elements -/
